@@ -301,6 +301,13 @@ def micro_scenarios():
         "sims": [_sim("A", "hybrid", steps=[1], emit=[1]), _sim("B", "hybrid", steps=[0], emit=[0])],
         "conns": [_c("A", "eo", "B", "ti")],
         "initial_events": {"B": 2}, "until": 4}
+    # a controller in a group and its plant in a sub-group of it: weak forward edge (the plant runs at a sub-step of
+    # the outer group), time-shifted back edge
+    out["nested_weak_forward_shift_back"] = {
+        "tree": [["X", ["Y"]]],
+        "sims": [_sim("X", "hybrid", steps=[1], emit=[1]), _sim("Y", "hybrid", steps=[0], emit=[0])],
+        "conns": [_c("X", "eo", "Y", "ti", weak=True), _c("Y", "po", "X", "mi", shift=1, init=True)],
+        "until": 5}
     for s in out.values():
         s.setdefault("initial_events", {})
         s.setdefault("world", {"cache": True})
